@@ -64,6 +64,7 @@ type Contract struct {
 	Clauses      []*Clause
 	Line         int
 	Traced       bool
+	Invalidates  bool // each call invalidates the transient (borrowed) slices handed out earlier
 	NoInline     bool
 	NoMerge      bool // explore paths separately (no state merging at joins)
 	allSpecFuncs []string
@@ -356,6 +357,8 @@ func parseClause(c *Contract, t string, line int) error {
 		c.Pure = true
 	case "traced":
 		c.Traced = true
+	case "invalidates":
+		c.Invalidates = true
 	case "noinline":
 		c.NoInline = true
 	case "nomerge":
